@@ -136,6 +136,9 @@ class Ctx:
         self.driver_exe: Path | None = None
         self._drivers: list[Driver] = []
         self.failures: list[dict] = []       # property violated on the implementation
+        self._sig_counts: dict[str, int] = {}
+        self.known_sigs: set[str] = set()    # signatures of status-known findings (set by main)
+        self._new_recorded = 0
         self.disagreements: list[dict] = []  # model vs implementation
         self.counts: dict[str, int] = {}
         self.distinct: set[str] = set()
@@ -183,7 +186,14 @@ class Ctx:
 
     def oracle_fail(self, signature: str, what: str, replay: dict):
         """The property itself fails on the implementation for a concrete input (independent of the model)."""
-        if len(self.failures) < 200:
+        # keep a few occurrences per signature (so that a frequent known finding can never crowd out a new failure)
+        n = self._sig_counts.get(signature, 0)
+        self._sig_counts[signature] = n + 1
+        if signature in self.known_sigs:
+            if n < 5:
+                self.failures.append({"signature": signature, "what": what, "replay": replay})
+        elif self._new_recorded < 200:
+            self._new_recorded += 1
             self.failures.append({"signature": signature, "what": what, "replay": replay})
 
     def disagree(self, what: str, replay: dict):
@@ -375,6 +385,7 @@ def main(H, argv=None):
             except OSError:
                 pass
     known = [k for k in load_known_findings() if k.get("property") == prop and k.get("status") == "known"]
+    ctx.known_sigs = {k.get("signature") for k in known}
     try:
         info = lean_stage(ctx, H)
         try:
@@ -465,7 +476,8 @@ def main(H, argv=None):
         "distribution": dict(sorted(ctx.counts.items())),
         "correspondence": {"driver_lines": sum(d.lines_sent for d in ctx._drivers),
                            "disagreements": len(ctx.disagreements)},
-        "oracle": {"failures": len(ctx.failures), "new": len(new_failures)},
+        "oracle": {"failures": sum(ctx._sig_counts.values()), "recorded": len(ctx.failures), "new": len(new_failures),
+                   "by_signature": dict(sorted(ctx._sig_counts.items()))},
         "search": search_info,
         "known_findings_reproduced": sorted(known_hit.keys()),
         "broken_obligations": ctx.broken,
@@ -496,7 +508,7 @@ def main(H, argv=None):
         print(ln)
     print(f"{prop} {tier} seed={seed}: theorems={len(names)} obligations={obligations} discharged={discharged} "
           f"cases={ctx.evaluations} distinct_nontrivial={len(ctx.distinct)} disagreements={len(ctx.disagreements)} "
-          f"oracle_failures={len(ctx.failures)} wall={ev['wall_s']}s exit={exit_code}")
+          f"oracle_failures={sum(ctx._sig_counts.values())} wall={ev['wall_s']}s exit={exit_code}")
     if ctx.broken:
         for b in ctx.broken[:10]:
             print("  broken:", b[:400])
